@@ -1210,3 +1210,124 @@ def rule_panic_mode(ctx, prop):
                           f"{rel}: [{b}] sets panic = \"abort\": a file whose formatting panics kills the whole process (SIGABRT, "
                           f"status 134) - the files queued behind it stay unformatted and the status is not 2", rel, None)
     return rep
+
+
+STATEFUL_CALL = re.compile(r"thread::LocalKey|thread::local|OnceLock|OnceCell|once_cell::|lazy::Lazy|LazyLock|LazyCell|sync::Mutex|sync::RwLock|"
+                           r"sync::atomic::|cell::RefCell|cell::Cell|sync::Once\b|parking_lot")
+
+
+def rule_no_state(ctx, prop):
+    """the library keeps no state between calls: every file is formatted from its own (Config, text) only"""
+    rep = Report(prop, "R-NOSTATE", "stylua_lib holds no state across format calls: no static / thread-local cell, lock, atomic "
+                                    "or once-initialised value except compiled regular expressions (which do not depend on the "
+                                    "configuration or the input)")
+    for cfg, prog in ctx.programs.items():
+        nst = 0
+        ncall = 0
+        for f in prog.fns("stylua_lib"):
+            if str(f.kind).startswith("Static"):
+                nst += 1
+                ty = f.locals[0] if f.locals else ""
+                is_regex = "regex::Regex" in ty or any("Regex::new" in callee(t) or "regex::Regex" in callee_full(t) for b, t in f.calls()) \
+                    or re.search(r"::(RE|UNNECESSARY_ESCAPES)$", f.path) is not None and not list(f.calls())
+                interior = bool(re.search(r"Cell|Lock|Mutex|Atomic|Lazy|Once|LocalKey", ty))
+                ok = is_regex or not interior
+                rep.inst(f"stylua_lib::{f.path} static is a compiled regex or immutable data", {"type": ty[:80]}, cfg, ok=ok)
+                if not ok:
+                    rep.violation(f"stylua_lib::{f.path} stateful-static type={ty[:60]}",
+                                  f"stylua_lib declares the static {f.path}: {ty}, a cell that outlives one format call; what it caches "
+                                  f"from the first call (configuration, input) is served to later calls on the same thread / process, "
+                                  f"so a file's output depends on which worker formatted which file before", f.loc(), cfg)
+                continue
+            for b, t in f.calls():
+                c = callee_full(t) if "callee_full" in globals() else callee(t)
+                c0 = callee(t)
+                if not (STATEFUL_CALL.search(c0) or STATEFUL_CALL.search(c)):
+                    continue
+                ncall += 1
+                # the lazily compiled regexes of format_token
+                allowed = re.search(r"lazy::Lazy::<.*>::get$|Lazy::<T>::get$", c0) and ("Regex" in c or f.path.endswith("__stability") or "Regex" in " ".join(f.locals))
+                rep.inst(f"{f.key} {c0.split('::')[-2] if '::' in c0 else c0}::{c0.split('::')[-1]} is the regex lazy", None, cfg, ok=bool(allowed))
+                if not allowed:
+                    rep.violation(f"{f.key} state-across-calls via={'::'.join(c0.split('::')[-2:])}",
+                                  f"{f.path} uses {c0}: a value kept in a static / thread-local cell between format calls; the pool "
+                                  f"worker that formats several files reuses what the first file (its configuration) put there, so the "
+                                  f"bytes written depend on --num-threads and on scheduling", f.loc(t["sp"]), cfg)
+        rep.floor("statics of stylua_lib examined", nst, 2, cfg)
+    return rep
+
+
+def rule_ignore_order(ctx, prop):
+    """explicit paths: the ignore file next to the file (or above it) wins; the working directory's is only a fallback"""
+    rep = Report(prop, "R-IGNOREORDER", "get_ignore looks for the ignore file of the path's own directory first and consults the "
+                                        "working directory's only when none was found")
+    for cfg, prog in ctx.programs.items():
+        prog = _view(prog)
+        f = prog.fn("stylua", "get_ignore")
+        if not rep.anchor(f is not None, "stylua::get_ignore", cfg):
+            continue
+        clos = [g for g in prog.fns("stylua") if g.path.startswith("get_ignore::{closure")]
+
+        def kind(g, t):
+            pr = provenance(g, t["args"][0])
+            import r_cfg
+            calls = r_cfg._deep_calls(g, t["args"][0])
+            if any(c.endswith("env::current_dir") for c in calls):
+                return "cwd"
+            if g.kind == "Closure":
+                # the closure's own argument: what the adaptor it is handed to (`.and_then(|cwd| ..)`) feeds it
+                if any(r[0] == "arg" and r[1] >= 2 for r in pr):
+                    parent = prog.fn("stylua", g.path.rsplit("::{closure", 1)[0])
+                    anc = [h for h in [f] + clos if g.path.startswith(h.path) and h is not g]
+                    for par in ([parent] if parent is not None else []) + anc:
+                        for _, t2 in par.calls():
+                            if any((not is_const(a)) and any(r2[0] == "agg" and r2[1] == "closure " + g.path
+                                                             for r2 in provenance(par, a, through=None, into_aggs=False))
+                                   for a in t2["args"][1:]):
+                                import r_cfg
+                                if any(c.endswith("env::current_dir") for c in r_cfg._deep_calls(par, t2["args"][0])):
+                                    return "cwd"
+                    if any(callee(t2).endswith("env::current_dir") for h in anc if h.kind == "Closure" for _, t2 in h.calls()):
+                        return "cwd"
+                if any(r[0] == "upvar" for r in pr):
+                    return "dir"
+                return "?"
+            if any(r[0] == "arg" and r[1] == 1 for r in pr):
+                return "dir"
+            return "?"
+        sites = [(g, b, t, kind(g, t)) for g in [f] + clos for b, t in g.calls() if callee(t).endswith("find_ignore_file_path")]
+        dirs = [x for x in sites if x[3] == "dir"]
+        cwds = [x for x in sites if x[3] == "cwd"]
+        if len(dirs) != 1 or len(cwds) != 1:
+            rep.notes.append(f"[{cfg}] get_ignore: lookups not recognised ({[x[3] for x in sites]}): order clause not evaluated")
+            continue
+        def position(g):
+            """'primary' (evaluated whenever get_ignore runs) or 'fallback' (inside the closure of an or_else-like call)"""
+            if g is f:
+                return "primary"
+            top = [h for h in clos if g.path.startswith(h.path) and h.path.count("::{closure") == f.path.count("::{closure") + 1]
+            if not top:
+                return None
+            for _, t2 in f.calls():
+                for a in t2["args"][1:]:
+                    if not is_const(a) and any(r2[0] == "agg" and r2[1] == "closure " + top[0].path
+                                               for r2 in provenance(f, a, through=None, into_aggs=False)):
+                        return "fallback" if re.search(r"::(or_else|unwrap_or_else|or_insert_with)$", callee(t2)) else "primary"
+            return None
+        pd, pc = position(dirs[0][0]), position(cwds[0][0])
+        ok = None
+        if pd and pc and pd != pc:
+            ok = pd == "primary" and pc == "fallback"
+        elif pd == pc == "primary" and dirs[0][0] is f and cwds[0][0] is f:
+            db, cb = dirs[0][1], cwds[0][1]
+            ok = f.dominates(db, cb) and db != cb
+        if ok is None:
+            rep.notes.append(f"[{cfg}] get_ignore: fallback form not recognised: order clause not evaluated")
+            continue
+        rep.inst("stylua::get_ignore nearest ignore file first, cwd as fallback", None, cfg, ok=ok)
+        if not ok:
+            rep.violation("stylua::get_ignore ignore-lookup-order cwd-before-own-directory",
+                          "get_ignore consults the working directory's .styluaignore before (instead of after) the one next to the "
+                          "path: with --respect-ignores an explicitly named file that its own directory's .styluaignore excludes is "
+                          "formatted whenever the working directory has an ignore file of its own", f.loc(), cfg)
+    return rep
